@@ -57,6 +57,30 @@ KEYMAP = {"Waveform": 2, "Tx ID property": 3, "Unit": 10, "Channels": 11, "Loop 
           "Discretization": 1}
 
 
+# AirborneEMSurvey._PROPERTY_MAP: python attribute -> metadata field; stored as "<Field> value" (a constant) or "<Field> property"
+# (the uid of a data property), never both
+PARAMS = {"crossline_offset": "Crossline offset", "inline_offset": "Inline offset", "pitch": "Pitch", "roll": "Roll",
+          "vertical_offset": "Vertical offset", "yaw": "Yaw"}
+for _i, _f in enumerate(sorted(PARAMS.values())):
+    KEYMAP[_f + " value"] = 50 + 2 * _i
+    KEYMAP[_f + " property"] = 51 + 2 * _i
+
+
+def _param_uuid(n):
+    import uuid
+
+    return uuid.UUID(int=0xC2000000 + int(n))
+
+
+def _param_token(op):
+    """token of the value a 'param' op assigns, as the canonical metadata shows it"""
+    if op["kind"] == "float":
+        return tokz(_num(float(op["val"]) + 0.5))
+    if op["kind"] == "uuid":
+        return tokz(str(_param_uuid(op["val"])))
+    return None
+
+
 # concrete survey classes whose `default_input_types` / `default_units` getter reads a name-mangled private attribute that the
 # defining class does not assign (AttributeError at run time) — read from the source under test by regenerate()
 BROKEN = {"default_input_types": set(), "default_units": set()}
@@ -178,6 +202,9 @@ def rand_edit(rng, pair, who):
             return {"op": "crs", "a": who, "code": rng.below(9)}
         return {"op": "edit", "a": who, "key": "note", "val": rng.below(50)}
     c = rng.below(130)
+    if pair.startswith("Airborne") and rng.chance(25):
+        return {"op": "param", "a": who, "field": rng.choice(sorted(PARAMS)[:3] if rng.chance(70) else sorted(PARAMS)),
+                "kind": rng.weighted([("float", 40), ("uuid", 45), ("none", 15)]), "val": rng.below(40)}
     if c >= 100:
         if c < 110 and fam in ("FTEM", "FLargeTEM"):
             return {"op": "timing", "a": who, "val": rng.range(1, 9)}
@@ -259,6 +286,23 @@ def generate(rng, tier):
                 e1, e2 = rand_edit(rng, pair, other), rand_edit(rng, pair, rng.below(2))
                 e1["quiet"] = e2["quiet"] = True
                 cases.append({"hist": hq + [e1, {"op": "reopen"}, {"op": "reopen", "quiet": True}, e2, {"op": "reopen"}]})
+            # airborne orientation / offset parameters: every field through constant -> property, property -> constant,
+            # constant -> cleared -> property, property -> property, from either side, each as the last edit before the file is closed
+            if pair.startswith("Airborne"):
+                seqs = [("float", "uuid"), ("uuid", "float"), ("float", "none", "uuid"), ("uuid", "uuid"), ("float", "float", "none")]
+                hp = base_history(pair, direction, n, rng)
+                for j, field in enumerate(sorted(PARAMS)):
+                    kinds = seqs[(j + direction) % len(seqs)]
+                    for t, kind in enumerate(kinds):
+                        hp += [{"op": "param", "a": (j + t + direction) % 2, "field": field, "kind": kind, "val": 3 * j + t + 1}, {"op": "reopen"}]
+                cases.append({"hist": hp})
+                hp = base_history(pair, direction, n, rng)
+                for j, field in enumerate(sorted(PARAMS)):
+                    kinds = seqs[(j + 1 - direction) % len(seqs)]
+                    for t, kind in enumerate(kinds):   # the same without a re-open in between, the file looked at only at the end of each field
+                        hp.append({"op": "param", "a": (j + t + 1) % 2, "field": field, "kind": kind, "val": 5 * j + t + 2, "quiet": t + 1 < len(kinds) and (j % 2 == 0)})
+                    hp.append({"op": "reopen"})
+                cases.append({"hist": hp})
             if fam in ("FTEM", "FLargeTEM"):
                 cases.append({"hist": h + [{"op": "wave", "a": 0, "seed": 3}, {"op": "copy", "a": 0, "tws": 0, "mask": None}, {"op": "wave", "a": 2, "seed": 7}, {"op": "reopen"}]})
     # tipper with a single base station, unequal vertex counts, unlinked copies, pairs without ids
@@ -367,6 +411,9 @@ def _canon_md(md, ent, ents, partner=None, quiet=False):
                 out.append([kn, ["own"]])
                 continue
             pos = [i for i, e in enumerate(ents) if e["ws"] == ent["ws"] and e["uuid"] == v]
+            if not pos and k.endswith(" property") and k[: -len(" property")] in PARAMS.values():
+                out.append([kn, ["Z", tokz(str(v))]])   # the uid of a data property: only its identity matters
+                continue
             out.append([kn, ["P", pos[0]] if pos else ["foreign"]])
         elif isinstance(v, dict):
             out.append([kn, ["D", sorted([keynum(kk), tokz(_plain(vv))] for kk, vv in v.items() if vv is not None)]])
@@ -430,8 +477,17 @@ def drive_one(case, work):
             txown = None
             if isinstance(inner, dict) and "Tx ID property" in inner and e["role"] == "A":
                 txown = inner["Tx ID property"] in [c.uid for c in o.children]
+            params = None
+            if e["pair"].startswith("Airborne"):
+                params = {}
+                for f in sorted(PARAMS):
+                    try:
+                        x = getattr(o, f)
+                        params[f] = None if x is None else tokz(_plain(x))
+                    except Exception as ex:  # noqa: BLE001
+                        params[f] = "raised:" + type(ex).__name__
             out.append({"live": _canon_md(live, e, ents, p), "stored": _canon_md(stored, e, ents, p), "partner": ppos, "ident": cls, "txown": txown,
-                        "cls": type(o).__name__, "ws": e["ws"], "sizes": sizes})
+                        "cls": type(o).__name__, "ws": e["ws"], "sizes": sizes, "params": params})
         return out
 
     def observe_quiet():
@@ -510,6 +566,14 @@ def drive_one(case, work):
                         o.relative_to_bearing = bool(op["val"])
                     else:
                         o.edit_em_metadata({op["key"]: op["val"]})
+                    defaults_log.append(None)
+                elif kind == "param":
+                    value = None
+                    if op["kind"] == "float":
+                        value = float(op["val"]) + 0.5
+                    elif op["kind"] == "uuid":
+                        value = _param_uuid(op["val"])
+                    setattr(ents[op["a"]]["obj"], op["field"], value)
                     defaults_log.append(None)
                 elif kind == "wave":
                     ents[op["a"]]["obj"].waveform = _waveform(op["seed"])
@@ -643,6 +707,10 @@ def _op_term(op, obs, idx, case=None):
         return "(OLink %s %s)" % (cnat(op["a"]), cnat(op["b"]))
     if k == "timing":
         return "(OTiming %s %s)" % (cnat(op["a"]), _z(tokz(op["val"])))
+    if k == "param":
+        fld = PARAMS[op["field"]]
+        pv = "PClear" if op["kind"] == "none" else "(%s %s)" % ("PConst" if op["kind"] == "float" else "PProp", _z(_param_token(op)))
+        return "(OParam %s %s %s %s)" % (cnat(op["a"]), cnat(keynum(fld + " value")), cnat(keynum(fld + " property")), pv)
     if k == "nest":
         return "(ONest %s %s %s %s)" % (cnat(op["a"]), cnat(keynum("Nested")), cnat(keynum("a")), _z(tokz(op["val"])))
     if k == "crs":
@@ -716,7 +784,7 @@ def model_term(case):
 
 
 # ----------------------------------------------------------------------------- oracle (property text)
-EDIT_OPS = ("edit", "wave", "unit", "timing", "nest", "crs")
+EDIT_OPS = ("edit", "wave", "unit", "timing", "nest", "crs", "param")
 
 
 def _get(d, k):
@@ -750,6 +818,7 @@ def oracle(case, obs):
     creates = {}
     former = {}        # entity -> its ex-partner, after a re-link moved the partner elsewhere
     relinked = set()   # entities that were given a new partner while they had one
+    param_now = {}     # (pair, field) -> token of the airborne parameter value last assigned through either member
     stale = {}         # entity -> the partner its getter resolved (and cached) before it was re-linked from elsewhere
     for i, st in enumerate(steps):
         op = hist[i]
@@ -770,8 +839,9 @@ def oracle(case, obs):
                     key = None  # a mask of the wrong length is rightly refused
                 elif not same and "LargeLoop" not in cls and "Electrode" not in cls:
                     key = "masked-copy-partner-vertex-count-differs"
-            elif k == "edit" and roles.get(op["a"]) == "DC" and op["a"] not in linked:
-                key = None  # an unlinked electrode refuses free metadata (both link keys are required)
+            elif k in ("edit", "crs") and roles.get(op["a"]) == "DC" and op["a"] not in linked:
+                key = None  # an unlinked electrode refuses every metadata assignment, the coordinate reference system included (its
+                #             metadata validation requires both link keys); the property is about linked pairs, the model refuses too
             if key:
                 fails.append({"key": key, "what": f"step {i} {json.dumps(op)[:120]} raised {st['error']}: {st.get('msg')}"})
             break
@@ -825,8 +895,12 @@ def oracle(case, obs):
                     if views[c]["partner"] in (a, pa) or views[c2]["partner"] in (a, pa):
                         fails.append({"key": "copy-linked-to-original", "what": f"step {i}: a copy is linked to an original"})
                     # the copy carries the survey parameters of its source (everything but the identifiers)
-                    pa_src = [kv for kv in (views[a]["live"] or []) if kv[0] not in (0, 1, 3)]
-                    pa_cp = [kv for kv in (views[c]["live"] or []) if kv[0] not in (0, 1, 3)]
+                    # references to other entities (the link keys, "Tx ID property", "<Field> property" of an airborne parameter) are
+                    # not carried over by BaseEMSurvey.copy ("copy metadata except reference to entities UUID"): the data they name
+                    # get new uids in the copy
+                    refs = (0, 1, 3) + tuple(keynum(f + " property") for f in PARAMS.values())
+                    pa_src = [kv for kv in (views[a]["live"] or []) if kv[0] not in refs]
+                    pa_cp = [kv for kv in (views[c]["live"] or []) if kv[0] not in refs]
                     if roles.get(a) != "DC" and pa_src != pa_cp:
                         fails.append({"key": "copy-parameters-differ", "what": f"step {i}: survey parameters of the copy {str(pa_cp)[:100]} differ from the source's {str(pa_src)[:100]}"})
                     if views[c2]["cls"] != views[pa]["cls"] or views[c]["cls"] != views[a]["cls"]:
@@ -892,7 +966,7 @@ def oracle(case, obs):
                     db = {kk: x for kk, x in (vb["live"] or [])}
                     dk = {kk for kk in set(da) | set(db) if da.get(kk) != db.get(kk)}
                     copies = [j for j, h in enumerate(hist[: i + 1]) if h["op"] == "copy"]
-                    alias = dk == {2} and bool(copies) and any(h["op"] == "wave" and j > copies[0] for j, h in enumerate(hist[: i + 1]))
+                    alias = dk == {2} and bool(copies) and any(h["op"] in ("wave", "timing") and j > copies[0] for j, h in enumerate(hist[: i + 1]))
                     fails.append({"key": "tem-copy-shares-waveform-dict" if alias else "partners-metadata-differ",
                                   "what": f"step {i} ({k}): live metadata of partners ({a},{b}) differ in keys {sorted(dk)}"})
             for v, who in ((va, a), (vb, b)):
@@ -918,6 +992,21 @@ def oracle(case, obs):
                     for who in (a, b):
                         if (not quiet and _get(views[who]["live"], keynum("Nested")) != want) or _get(views[who]["stored"], keynum("Nested")) != want:
                             fails.append({"key": "edit-not-visible-on-both", "what": f"step {i}: nested entry not visible/stored on entity {who}"})
+                elif k == "param":
+                    fld = PARAMS[op["field"]]
+                    kv, kp = keynum(fld + " value"), keynum(fld + " property")
+                    tok = _param_token(op)
+                    want_v = ["Z", tok] if op["kind"] == "float" else None
+                    want_p = ["Z", tok] if op["kind"] == "uuid" else None
+                    for who in (a, b):
+                        for where in (("stored",) if quiet else ("live", "stored")):
+                            d = views[who][where]
+                            if _get(d, kv) != want_v or _get(d, kp) != want_p:
+                                fails.append({"key": "edit-not-visible-on-both", "what": f"step {i}: {op['field']} = {op['kind']} through entity {a}: {where} metadata of entity {who} holds"
+                                                                                         f" value={_get(d, kv)} property={_get(d, kp)}"})
+                        got = (views[who].get("params") or {}).get(op["field"], tok) if not quiet else tok
+                        if got != tok:
+                            fails.append({"key": "edit-not-visible-on-both", "what": f"step {i}: {op['field']} = {op['kind']} through entity {a}: entity {who}.{op['field']} answers {got}"})
                 if k == "edit":
                     val = op["val"]
                     if op["key"] == "Input type":
@@ -967,6 +1056,19 @@ def oracle(case, obs):
                     fails.append({"key": "reopen-changes-stored", "what": f"step {i}: stored metadata of entity {j} changed over re-open"})
                 if not quiet and v1["live"] != v1["stored"]:
                     fails.append({"key": "reopen-live-differs-from-stored", "what": f"step {i}: entity {j} reads metadata that differs from the file"})
+        # the airborne parameters last assigned through either side of a pair answer on both sides after a re-open
+        if k == "param" and op["a"] in linked:
+            param_now[(min(op["a"], linked[op["a"]]), max(op["a"], linked[op["a"]]), op["field"])] = _param_token(op)
+        elif k == "link":
+            param_now = {kk: vv for kk, vv in param_now.items() if linked.get(kk[0]) == kk[1]}
+        if k == "reopen" and not quiet:
+            for (pa_, pb_, fld_), tok in param_now.items():
+                if linked.get(pa_) != pb_:
+                    continue
+                for who in (pa_, pb_):
+                    got = (views[who].get("params") or {}).get(fld_, tok)
+                    if got != tok:
+                        fails.append({"key": "edit-lost-over-reopen", "what": f"step {i}: after re-open entity {who}.{fld_} answers {got}, the last value assigned to the pair was {tok}"})
         prev_views = views
         prev_quiet = quiet
     # de-duplicate by key keeping the first message
@@ -986,7 +1088,7 @@ def _src_wave_alias(i, hist, who, views, prev_views):
     sk = {k: x for k, x in (v["stored"] or [])}
     diff = {k for k in set(lk) | set(sk) if lk.get(k) != sk.get(k)}
     copies = [j for j, h in enumerate(hist[: i + 1]) if h["op"] == "copy"]
-    waves = [j for j, h in enumerate(hist[: i + 1]) if h["op"] == "wave"]
+    waves = [j for j, h in enumerate(hist[: i + 1]) if h["op"] in ("wave", "timing")]   # both setters update the nested dict in place
     return diff == {2} and bool(copies) and any(j > copies[0] for j in waves)
 
 
